@@ -10,6 +10,8 @@ dedicated ICT line.  One line fault; four variants that differ only in the ICT /
   switch-cut     the ICT line to an intelligent switch of the faulted section's boundary out -> >= T
   overlap        as sensor-cut, and a second ICT line (on the redundant backbone) fails at the same time and is
                  repaired before the power fault: the sensor is still cut off                      -> >= T
+  sensor-cut-swfail  as sensor-cut, and the main controller has a software failure (cured by a new signal within
+                 seconds) one increment after the fault, while the section is being isolated by hand  -> >= T
 """
 import random
 from fractions import Fraction
@@ -46,7 +48,7 @@ def gen(rng, n):
         fl = rng.randrange(1, nl) if nl > 1 else 0
         dt = rng.choice([F(1, 2), F(1, 4)])
         cases.append({"kind": "timing", "spec": spec, "devices": devices, "fault": [rng.randint(2, 4), f"F0L{fl}", "5"], "dt": str(dt),
-                      "variants": ["healthy", "ctrl-repair", "sensor-cut", "switch-cut", "overlap"]})
+                      "variants": ["healthy", "ctrl-repair", "sensor-cut", "switch-cut", "overlap", "sensor-cut-swfail"]})
     return cases
 
 
@@ -88,7 +90,7 @@ def run_variant(case, variant):
     faulted = ps.get_comp(lname)
     devices = case["devices"]
     cut = None
-    if variant in ("sensor-cut", "overlap"):
+    if variant in ("sensor-cut", "overlap", "sensor-cut-swfail"):
         cut = devices.index(f"S{lname}")
 
     elif variant == "switch-cut":
@@ -99,6 +101,8 @@ def run_variant(case, variant):
     if variant == "ctrl-repair":
         ps.controller.state = ControllerState.REPAIR
         ps.controller.remaining_repair_time = Time(F(100))
+
+    saved = {}
 
     def cb(ps, prev_time, curr_time):
         k = int(round(curr_time.get_hours() / dt))
@@ -113,6 +117,17 @@ def run_variant(case, variant):
         if k == k0:
             faulted.repair_time_dist = net.FixedDist(F(rep))
             faulted.fail(curr_time - prev_time)
+        if variant == "sensor-cut-swfail":
+            # while the fault is being sectioned by hand, the main controller has a software failure (real draw: rate raised for
+            # one increment, generator answering "no hardware failure, software failure, cured by the new signal"); its short
+            # recovery time must not replace the manual sectioning time the sub-controllers are counting down
+            c_ = ps.controller
+            if k == k0 + 1:
+                saved["ctrl"] = (c_.software_fail_rate_per_year, c_.ps_random)
+                c_.software_fail_rate_per_year = 1e15
+                c_.ps_random = net.SeqRng([1, 0, 1])
+            elif k == k0 + 2 and "ctrl" in saved:
+                c_.software_fail_rate_per_year, c_.ps_random = saved.pop("ctrl")
     times = [dt * k for k in range(1, n_inc + 1)]
     with c17._Exact():
         sim.run_sequence(TimeStamp(), times, TimeUnit.HOUR, cb, False)
